@@ -3,6 +3,8 @@ mod checks;
 mod e1;
 mod e1h;
 mod e1n;
+mod e2;
+mod synth;
 mod e3;
 mod e4;
 mod e6;
